@@ -24,6 +24,42 @@ CLAIMS = {
         "technique": "Lean 4 proof (invariant over the history as a log, induction over sequences of generations) + scenario differential + independent action monitor",
         "design_ref": "7 C04",
     },
+    "C02": {
+        "text": "Theorems for all trees and all ignore predicates: a path is visited by the traversal that every command shares exactly when it is in the tree and neither it nor an ancestor below the root is ignored (visible_iff); visited paths are non-empty lists of node names (relative, never escaping); with distinct sibling names every entry is visited exactly once and resolves to the node on disk; post-order. Recorded digests are the digests of the file's content and every requested format is present unless a check failed (C04's sealEntries theorems). Tie: scenario differential incl. record order; monitor: independent walk of the disk with pathspec as the definition of 'excluded' versus the records of every manifest written (exactly one record per non-ignored entry, right history, kind, size, digests recomputed with the libraries), for folder mode, -sf mode, nested histories, path spellings.",
+        "note": "The step from 'visited' to 'recorded' (createVisit appends one record per visited child) is covered by the correspondence and the monitor, not by a theorem. " + COMMON_NOTE,
+        "technique": "Lean 4 proof (mutual structural induction over the tree) + scenario differential + independent disk-walk monitor",
+        "design_ref": "7 C02",
+    },
+    "C06": {
+        "text": "Theorems: the generated manifest name parses back to its generation number for every number, folder and stamp (exact condition: no line feed in folder or stamp); the zero-padded number is injective; writeOne numbers a generation latest+1 and names it NNNN_<folder>_<stamp>.mhl; for ascending loaded generations latest is the maximum, so the new name is fresh; adding a generation keeps every old manifest and every old chain entry at its index and appends exactly one; updating one history leaves every other ascmhl folder untouched; reload of generations 1..n plus the new one yields 1..n+1, by induction for any number of runs. Tie/monitor: byte snapshot of every pre-existing file of every ascmhl folder before/after each create, numbering, name shape under the injected clock (several runs per second), chain entries vs c4 of the bytes on disk, long histories (11-14 generations).",
+        "note": "Manifest bytes and their c4 digest are symbolic in the model (the monitor recomputes them from disk). " + COMMON_NOTE,
+        "technique": "Lean 4 proof (digit arithmetic, sortedness invariant, induction over runs) + scenario differential + byte-level monitor",
+        "design_ref": "7 C06",
+    },
+    "C07": {
+        "text": "Theorems about the compositional definition (nodeHashes) for arbitrary digest and decode functions: invariant under any permutation of any directory listing anywhere in the tree; content hash invariant under renaming a file or folder in place (at any depth, when old and new location are equally visible); empty / fully ignored directory hashes as the empty input; file hashes independent of the name; the content hash binds contents and the structure hash binds names and contents exactly under explicitly stated digest inequalities on the two concrete pre-images (iff versions; necessity shown by constant-H and non-decoding-D examples). Tie: the implementation-shaped computation in the model (contexts filled over the post-order traversal, as create and verify -dh do) is compared with the real code on every scenario; monitor: independent reference evaluation of the compositional definition with library digests versus every recorded <directoryhash>/<roothash> and the output of verify -dh -co.",
+        "note": "The equality 'implementation-shaped fold = compositional definition' inside the model is checked by the monitor's reference evaluation on every scenario, not yet by a theorem. No global collision-freeness is assumed anywhere. " + COMMON_NOTE,
+        "technique": "Lean 4 proof (permutation invariance via sorted-permutation uniqueness, induction over the tree) + scenario differential + reference evaluation monitor",
+        "design_ref": "7 C07",
+    },
+    "C08": {
+        "text": "Theorems: a path is routed to the root history or to a nested history whose root is a component-wise prefix of it, the returned path is relative to that root, and no nested history with a longer matching root exists (deepest wins; string-prefix siblings are not confused); the post-order walk commits children before parents; a history that has no list in the session and no child that wrote is skipped; the references written are exactly the direct children that wrote in this run as <child>/ascmhl/<new manifest>. Tie: nested scenarios (chains to depth 4, prefix siblings, any creation order, folder and -sf mode); monitor: partition by the deepest history, nested root present in the parent with the child's own root hash, references recomputed from the bytes of the referenced files, generations written in exactly the expected histories.",
+        "note": COMMON_NOTE,
+        "technique": "Lean 4 proof (maximum-by-length fold invariant) + nested scenario differential + independent partition/reference monitor",
+        "design_ref": "7 C08",
+    },
+    "C12": {
+        "text": "Theorems: appending patterns keeps the existing list as a prefix, adds each new pattern once in the given order and never creates duplicates (also for a batch that repeats a pattern); without a previous generation the list starts with the three defaults; every -i/-ii pattern is in the list; the list written into any (nested) history in a run is that history's previous list followed by the session's patterns; an ignored path is never visited by the traversal all four commands share (C02.ignored_nowhere). Tie: scenario differential; the Lean fragment matcher vs pathspec on 10^4 (patterns, path) pairs; monitor: <ignore> lists of successive manifests; trees sealed with and without ignored entries present give identical generations; editing/adding/deleting only ignored entries leaves verify, verify -dh, diff and create at exit 0.",
+        "note": "The matcher (pathspec gitwildmatch) is a parameter of the model; its fragment {base-name literal, base-name glob, name/} is implemented in the driver and cross-checked. " + COMMON_NOTE,
+        "technique": "Lean 4 proof (list prefix/nodup invariants) + scenario differential + matcher differential + consistency monitor",
+        "design_ref": "7 C12",
+    },
+    "C18": {
+        "text": "Theorems for arbitrary generation lists: the flattened records contain no directory record, pairwise distinct paths, pairwise distinct formats per record, no failed entry; a path has a record iff some generation has a file record of it with a non-failed entry; every entry is the EARLIEST non-failed entry of its (path, format) and conversely every such earliest entry is present. Tie/monitor: the packing list read independently vs the history read independently; source tree and history byte-identical before/after flatten; verify -pl exits 0 on the unchanged tree and non-zero on an altered one.",
+        "note": "Histories without nested child histories and without renames (the property's domain). " + COMMON_NOTE,
+        "technique": "Lean 4 proof (fold invariant over generations/records/entries) + scenario differential + independent packing-list monitor",
+        "design_ref": "7 C18",
+    },
 }
 
 
